@@ -2,7 +2,7 @@
    The priority table is REGENERATED from /repo/tree.go by go2v; Model/TreeSort.v
    is the stable descending sort (= sort.SliceStable's contract, theorem c16_sort_unique). *)
 From Coq Require Import ZArith List String Bool Permutation Sorted.
-From GV Require Import Model.TreeSort Gen.Tables_gen Proofs.C16_sort.
+From GV Require Import Model.TreeSort Gen.Tables_gen Proofs.C16_sort Model.Reload Proofs.C17_base Proofs.C17_reload Proofs.C16_commute.
 Import ListNotations.
 Open Scope Z_scope.
 
@@ -53,3 +53,61 @@ Theorem c16_join : forall (A : Type) (f : list A) (r : list (list A)),
   join_files (f :: r) = f ++ List.concat (map (@tl A) r).
 Proof. exact join_files_spec. Qed.
 Print Assumptions c16_join.
+
+(* ---- the declarations of one level commute at run time --------------------------------------------
+   c16_layout_invariant says what the compiler is handed; what remains is that the ORDER of the hoisted
+   declarations inside a level (types, methods, functions: it follows the source order, the sort is
+   stable) does not change what the loaded package does.  This is proved on the declaration machine of
+   Model/Reload.v (GLOBALSTRUCT / SETMETHOD / GLOBALFUNC / GLOBALZERO / GLOBALSET of do.go with the heap
+   of function, type and instance objects; tie: c17-corr runs the real VM on the top-level code the real
+   compiler produced).  Function and type ADDRESSES do differ between two orders (objects are allocated
+   in execution order; witness Example.c16_example), so the statement is a heap isomorphism:
+   state_iso rf rt s s' = bijective renamings rf / rt of function / type addresses under which function
+   objects, type objects (fields as lists, methods as finite maps), instances, globals and host slots
+   correspond.  sig_scalar: zero values and default field values are nil or numbers (what the compiler
+   emits for ZERO; Example.c16_needs_scalar shows that a raw address there would be order dependent). *)
+Theorem c16_commute : forall S S' B, wf_sig S -> wf_sig S' ->
+  Permutation (stypes S) (stypes S') -> Permutation (smethods S) (smethods S') ->
+  Permutation (sfuncs S) (sfuncs S') -> svars S = svars S' -> sig_scalar S ->
+  outcome_iso (exec_list init_state (version_of S B)) (exec_list init_state (version_of S' B)).
+Proof. exact C16_commute.c16_commute. Qed.
+Print Assumptions c16_commute.
+
+(* the same when the package is loaded into a VM that already loaded earlier versions, written in any orders *)
+Theorem c16_commute_reload : forall S S' B st, wf_sig S -> wf_sig S' ->
+  Permutation (stypes S) (stypes S') -> Permutation (smethods S) (smethods S') ->
+  Permutation (sfuncs S) (sfuncs S') -> svars S = svars S' -> sig_scalar S ->
+  C16_commute.reach S st ->
+  outcome_iso (exec_list st (version_of S B)) (exec_list st (version_of S' B)).
+Proof. exact C16_commute.c16_commute_reload. Qed.
+Print Assumptions c16_commute_reload.
+
+(* observable consequences: every declared function / method has its object on both sides, holding the body the
+   source gives it; calls through corresponding values and through any access path observe the same body and
+   receiver; and NO history of later loads, stores, calls and identity tests tells the two VMs apart *)
+Theorem c16_commute_fn_bodies : forall S S' B s s', wf_sig S -> wf_sig S' ->
+  Permutation (stypes S) (stypes S') -> Permutation (smethods S) (smethods S') ->
+  Permutation (sfuncs S) (sfuncs S') -> svars S = svars S' -> sig_scalar S ->
+  exec_list init_state (version_of S B) = Some s -> exec_list init_state (version_of S' B) = Some s' ->
+  exists rf rt, state_iso rf rt s s' /\
+    (forall k, fn_addr s' k = option_map rf (fn_addr s k)) /\
+    (forall k, key_ok S k -> exists a,
+       fn_addr s k = Some a /\ fn_addr s' k = Some (rf a) /\
+       nth_error (funcs s) a = Some (FBody (body_of B k)) /\
+       nth_error (funcs s') (rf a) = Some (FBody (body_of B k))).
+Proof. exact C16_commute.c16_commute_fn_bodies. Qed.
+Print Assumptions c16_commute_fn_bodies.
+
+Theorem c16_commute_run : forall S S' B s s', wf_sig S -> wf_sig S' ->
+  Permutation (stypes S) (stypes S') -> Permutation (smethods S) (smethods S') ->
+  Permutation (sfuncs S) (sfuncs S') -> svars S = svars S' -> sig_scalar S ->
+  exec_list init_state (version_of S B) = Some s -> exec_list init_state (version_of S' B) = Some s' ->
+  forall prog h, (forall v, Forall iscalar (prog v)) ->
+    option_map snd (run prog s h) = option_map snd (run prog s' h).
+Proof. exact C16_commute.c16_commute_run. Qed.
+Print Assumptions c16_commute_run.
+
+(* non-vacuity: 2 types, 3 methods, 2 functions, 4 variables (one initialised from a function, one from a
+   composite literal, one from a bound method), all three hoisted lists permuted: addresses differ, observations agree *)
+Check C16_commute.Example.c16_example.
+Check C16_commute.Example.c16_needs_scalar.
